@@ -450,3 +450,23 @@ package calendar
 //@     assert(3 <= n && n <= 6)
 //@     w0 := lat[*SolarWeek](l, 0)
 //@     assert(w0.year == sm.year && w0.month == sm.month && w0.day == 1 && w0.start == start)
+
+//@ # ================================================================ C19: printed civil timestamps
+//@ # The short and long forms are fixed-width zero-padded fields, so comparing the strings is comparing the dates:
+//@ # equal strings <=> equal fields, and lexicographic order = chronological order (day count / second count).
+//@ ghost func ymdOrder(a *Solar, b *Solar) [C19]
+//@   requires a.year >= 1 && b.year >= 1 && inYears(a.year) && inYears(b.year)
+//@   body
+//@     jdnMono(a.year, a.month, a.day, b.year, b.month, b.day)
+//@     jdnMono(b.year, b.month, b.day, a.year, a.month, a.day)
+//@     assert((strings.Compare(a.ToYmd(), b.ToYmd()) < 0) == (sjdn(a) < sjdn(b)))
+//@     assert((strings.Compare(a.ToYmd(), b.ToYmd()) == 0) == (a.year == b.year && a.month == b.month && a.day == b.day))
+//@     assert((strings.Compare(a.String(), b.String()) > 0) == (sjdn(a) > sjdn(b)))
+
+//@ ghost func ymdHmsOrder(a *Solar, b *Solar) [C19]
+//@   requires a.year >= 1 && b.year >= 1 && inYears(a.year) && inYears(b.year)
+//@   body
+//@     jdnMono(a.year, a.month, a.day, b.year, b.month, b.day)
+//@     jdnMono(b.year, b.month, b.day, a.year, a.month, a.day)
+//@     assert((strings.Compare(a.ToYmdHms(), b.ToYmdHms()) < 0) == (tsec(a) < tsec(b)))
+//@     assert((strings.Compare(a.ToYmdHms(), b.ToYmdHms()) == 0) == sameSolar(a, b))
